@@ -171,10 +171,12 @@ theorem evalCirc_coisometry {n m : Nat} {c : Circ} (ht : Circ.codFrom n c = some
 
 theorem Gate.dagger_dom : ∀ g : Gate, g.dagger.dom = g.cod
   | .q _ | .rot _ _ | .ket _ | .bra _ | .swap | .scalar _ => rfl
+  | .sqrt z r => by simp only [Gate.dagger, sqrtDaggerW]; split <;> rfl
   | .ctrl g => by simp [Gate.dagger, Gate.dom, Gate.cod, Gate.dagger_dom g]
 
 theorem Gate.dagger_cod : ∀ g : Gate, g.dagger.cod = g.dom
   | .q _ | .rot _ _ | .ket _ | .bra _ | .swap | .scalar _ => rfl
+  | .sqrt z r => by simp only [Gate.dagger, sqrtDaggerW]; split <;> rfl
   | .ctrl g => by simp [Gate.dagger, Gate.dom, Gate.cod, Gate.dagger_cod g]
 
 /-- The dagger of a well-typed circuit is well typed the other way round. -/
